@@ -319,12 +319,15 @@ class MindsDBLexer(Lexer):
     def INTEGER(self, t):
         return t
 
-    @_(r"'(?:\\.|[^'])*(?:''(?:\\.|[^'])*)*'")
+    # a backslash that starts an escape pair is never also tried as a plain character (unless a quote or a line
+    # break follows): same tokens as r"'(?:\\.|[^'])*(?:''(?:\\.|[^'])*)*'" without its exponential backtracking
+    # on an unterminated literal full of backslashes
+    @_(r"'(?:\\.|[^'\\]|\\(?=['\n]))*(?:''(?:\\.|[^'\\]|\\(?=['\n]))*)*'")
     def QUOTE_STRING(self, t):
         t.value = t.value.replace('\\"', '"').replace("\\'", "'").replace("''", "'")
         return t
 
-    @_(r'"(?:\\.|[^"])*"')
+    @_(r'"(?:\\.|[^"\\]|\\(?=["\n]))*"')
     def DQUOTE_STRING(self, t):
         t.value = t.value.replace('\\"', '"').replace("\\'", "'")
         return t
